@@ -294,8 +294,9 @@ impl Fw {
             (Mode::Lists, _) => (false, vec![]),
             (Mode::Forwards, Flavour::Permissionless) => (seed % 2 == 1, vec![]),
             (Mode::Forwards, Flavour::Permissioned) => {
-                let lists: [Vec<usize>; 3] = [vec![], vec![0], vec![1]];
-                (seed % 2 == 1, lists[seed / 2].clone())
+                // (rich, []), (poor, []), (rich, [T1]), (rich, [T2])
+                let cfg: [(bool, Vec<usize>); 4] = [(false, vec![]), (true, vec![]), (false, vec![0]), (false, vec![1])];
+                cfg[seed].clone()
             }
         }
     }
@@ -384,9 +385,20 @@ impl Fw {
     fn check_list(&self, i: &Inst, m: &Model, after: &Op) -> Result<(), Violation> {
         let e = &i.e;
         let (count, entries, index, allowed): (u32, Vec<Option<Address>>, Vec<Option<u32>>, Vec<bool>) = e.as_contract(&i.fwd, || {
-            let count: u32 = e.storage().instance().get(&FK::Count).unwrap_or(0);
-            let entries = (0..count.min(64)).map(|k| e.storage().persistent().get::<_, Address>(&FK::Token(k))).collect();
-            let index = i.toks.iter().map(|t| e.storage().persistent().get::<_, u32>(&FK::TokenIndex(t.clone()))).collect();
+            // (whichever durability the entries are kept in)
+            let st = e.storage();
+            let count: u32 = st.instance().get(&FK::Count).or_else(|| st.persistent().get(&FK::Count)).unwrap_or(0);
+            let entries = (0..count.min(64))
+                .map(|k| st.persistent().get::<_, Address>(&FK::Token(k)).or_else(|| st.instance().get::<_, Address>(&FK::Token(k))))
+                .collect();
+            let index = i
+                .toks
+                .iter()
+                .map(|t| {
+                    let k = FK::TokenIndex(t.clone());
+                    st.persistent().get::<_, u32>(&k).or_else(|| st.instance().get::<_, u32>(&k))
+                })
+                .collect();
             let allowed = i.toks.iter().map(|t| stellar_fee_abstraction::is_allowed_fee_token(e, t)).collect();
             (count, entries, index, allowed)
         });
@@ -461,8 +473,11 @@ impl Fw {
         let user_sc = auth::sc(&i2.addr(user));
         let full_of = |i: &Inst, o: &Op| -> Vec<ScVal> { self.fwd_args(i, o).iter().map(|v| to_sc(&i.e, v)).collect() };
         let full = full_of(&i2, op);
-        // the user's own entries: signed by the user and not the plain root call (the relayer's)
-        let user_entries_of = |rs: &[Rec], full: &Vec<ScVal>| -> Vec<Rec> { rs.iter().filter(|r| r.0 == user_sc && root_args(&r.1) != *full).cloned().collect() };
+        // the user's own entries: everything signed by the user (if the user is also the relayer:
+        // everything but the plain root call, which is what the relayer signs)
+        let same = user_sc == auth::sc(&i2.r);
+        let user_entries_of =
+            |rs: &[Rec], full: &Vec<ScVal>| -> Vec<Rec> { rs.iter().filter(|r| r.0 == user_sc && !(same && root_args(&r.1) == *full)).cloned().collect() };
         let user_entries = user_entries_of(recs, &full);
         let others: Vec<Rec> = recs.iter().filter(|r| !user_entries.contains(r)).cloned().collect();
         ensure!(
@@ -483,7 +498,8 @@ impl Fw {
             TFn::Ping | TFn::Pong => TFn::Pong,
             TFn::Act | TFn::Act2 => TFn::Act2,
         };
-        let mk = |tok: usize, max: i128, exp: u32, tgt: Tgt, f: TFn, x: u32| Op::Forward { user, tok, fee, max, exp, rel, tgt, f, x };
+        let exp0 = exp;
+        let mk = |tok: usize, max: i128, exp: u32, tgt: Tgt, f: TFn, x: u32| Op::Forward { user, tok, fee, max, exp, rel: rel + (exp as i64 - exp0 as i64), tgt, f, x };
         // (component, value in the call, value in the tampered tree, the other forward)
         let dims: Vec<(&str, ScVal, ScVal, Op)> = vec![
             ("fee token", sc_addr(&i2.toks[tok]), sc_addr(&i2.toks[other_tok]), mk(other_tok, max, exp, tgt, f, x)),
@@ -583,7 +599,11 @@ impl Fw {
         }
         for user in users {
             for tok in toks {
-                let maxes: &[i128] = if self.thorough { &[5, 0, -1, i128::MAX] } else { &[5, 0] };
+                // the second fee token only matters for the allow-list gate: ordinary user only
+                if *tok > 0 && *user != Who::U {
+                    continue;
+                }
+                let maxes: &[i128] = if self.thorough { &[5, 0, i128::MAX] } else { &[5, 0] };
                 for max in maxes {
                     let mut fees: Vec<i128> = vec![];
                     for fee in [1, *max, max.saturating_add(1), 0, -1] {
@@ -627,7 +647,7 @@ impl World for Fw {
         match (self.mode, self.flavour) {
             (Mode::Lists, _) => 1,
             (Mode::Forwards, Flavour::Permissionless) => 2,
-            (Mode::Forwards, Flavour::Permissioned) => 6,
+            (Mode::Forwards, Flavour::Permissioned) => 4,
         }
     }
 
@@ -883,21 +903,21 @@ fn main() {
     main_with(
         "C19",
         "model_checking",
-        "level-BFS over histories on the real fee-forwarder examples (permissionless = Eager, permissioned = Lazy + allow-list) with library tokens as fee tokens and a logging / failing target. forwards mode: forward(user in {U, relayer, forwarder}, fee in {-1,0,1,max,max+1}, max in {0,5[,-1,i128::MAX]}, expiration in {now-1,now,now+1[,max_ttl+1]}, target ok/failing, fee token T1[,T2]) x pre-existing allowance {none,4,5,6} [x advance], seeds {rich, poor user} x allow-list {[],[T1],[T2]}, target fn without/with own user authorization; lists mode: enable/disable of T1..T3[T4] by manager / non-manager with forward probes. After every accepted step all balances, allowances, call logs and the allow-list storage are compared with the model; every refused step must leave the storage digest of all contracts unchanged; every accepted forward is re-run from the rebuilt pre-state under enforcing authorization with the full set, every principal dropped / replaced by a bystander, and the user's tree tampered in each of {fee token, max fee, expiration, target, fn, argument}; non-trivial = distinct storage state reached through >=1 accepted call",
+        "level-BFS over histories on the real fee-forwarder examples (permissionless = Eager, permissioned = Lazy + allow-list) with library tokens as fee tokens and a logging / failing target. forwards mode: forward(user in {U, relayer, forwarder}, fee in {-1,0,1,max,max+1}, max in {0,5[,i128::MAX]}, expiration in {now-1,now,now+1[,max_ttl+1]}, target ok/failing, fee token T1 [T2 for user U in the permissioned worlds]) x pre-existing allowance {none,4,5,6} [x advance], seeds {rich user, poor user} with empty allow-list, rich user with allow-list [T1] / [T2], target fn without/with own user authorization; lists mode: enable/disable of T1..T3[T4] by manager / non-manager with forward probes. After every accepted step all balances, allowances, call logs and the allow-list storage are compared with the model; every refused step must leave the storage digest of all contracts unchanged; every accepted forward is re-run from the rebuilt pre-state under enforcing authorization with the full set, every principal dropped / replaced by a bystander, and the user's tree tampered in each of {fee token, max fee, expiration, target, fn, argument}; non-trivial = distinct storage state reached through >=1 accepted call",
         |tier: Tier, r: &mut Runner| {
             let th = tier == Tier::Thorough;
-            for flavour in [Flavour::Permissionless, Flavour::Permissioned] {
-                // (depth, wall cap) per world; worst case of all caps: quick 44 s, thorough 560 s
-                let (depth, wall) = match flavour {
-                    Flavour::Permissionless => (tier.pick(5, 6), tier.pick(4, 50)),
-                    Flavour::Permissioned => (tier.pick(3, 4), tier.pick(16, 210)),
-                };
-                for tf in [TFn::Ping, TFn::Act] {
-                    r.world(&Fw { flavour, mode: Mode::Forwards, tf, thorough: th }, &Bounds::new(depth, wall));
-                }
-            }
+            // one wall budget for the whole run (quick 38 s, thorough 540 s): the worlds run one
+            // after the other, cheapest first, each with whatever is left
+            let t0 = std::time::Instant::now();
+            let budget: u64 = tier.pick(38, 540);
+            let left = || budget.saturating_sub(t0.elapsed().as_secs()).max(1);
             for tf in [TFn::Ping, TFn::Act] {
-                r.world(&Fw { flavour: Flavour::Permissioned, mode: Mode::Lists, tf, thorough: th }, &Bounds::new(tier.pick(5, 7), tier.pick(2, 20)));
+                r.world(&Fw { flavour: Flavour::Permissioned, mode: Mode::Lists, tf, thorough: th }, &Bounds::new(tier.pick(5, 7), left()));
+            }
+            for (flavour, depth) in [(Flavour::Permissionless, tier.pick(5, 6)), (Flavour::Permissioned, tier.pick(3, 4))] {
+                for tf in [TFn::Ping, TFn::Act] {
+                    r.world(&Fw { flavour, mode: Mode::Forwards, tf, thorough: th }, &Bounds::new(depth, left()));
+                }
             }
             if let Some(rep) = r.report() {
                 rep.require(
